@@ -347,6 +347,16 @@ def defined(line):
             y = irval(t[2])
             if b in ("add", "sub"):
                 return rdef(b, s, y[0])
+            if b == "div":
+                # s/(r + i*eps) = s/r - (s*i / (r*r))*eps, computed with the library's own operations
+                # (recip(0) = +inf, recip(+-inf) = 0): every intermediate product must be one the C++ does not assert on
+                def c_mul(x, z):
+                    return e_mul(x, z) if rdef("mul", x, z) else None
+
+                def c_div(x, z):
+                    return c_mul(x, PINF if z == 0 else (F(0) if isinf(z) else 1 / z))
+                m, sq = c_mul(s, y[1]), c_mul(y[0], y[0])
+                return c_div(s, y[0]) is not None and m is not None and sq is not None and c_div(m, sq) is not None
             return rdef(b, s, y[0]) and rdef(b, s, y[1])
         x = irval(t[1])
         if name in ("add", "sub", "addAssign", "subAssign"):
